@@ -299,10 +299,29 @@ Definition table_header_from_bytes (d : bytes) : Res (N * bool * bool * N) :=
    /repo indexes data[0] and panics on empty input) *)
 Definition pointer_field (data : bytes) : N := match data with [] => 0 | x :: _ => x end.
 
+(* the command switch of parseTable: (s.pts, s.commandInfo, rest of buffer) *)
+Definition parse_command (ct adj : N) (b : buf) : Res (N * command * buf) :=
+  if (ct =? TimeSignal) || (ct =? SpliceInsert) then
+    let? rc := (if ct =? TimeSignal then parse_time_signal b
+                else let? ri := parse_insert b in let (i, b') := ri in Ok (CInsert i, b')) in
+    let (cmd, b') := rc in
+    Ok (Pts.add (cmd_pts cmd) adj, cmd, b')
+  else if ct =? SpliceNull then Ok (0, CNull, b)
+  else Err E.SCTE35UnsupportedSpliceCommand.
+
+(* descriptor_loop_length, the two length guards and the descriptor loop of parseTable *)
+Definition parse_descriptors (sid : N) (data : bytes) (b : buf) : Res (bytes * list segdesc) :=
+  if blen b <? 6 then Err E.InvalidSCTE35Length else
+  let (lb, b) := next 2 b in
+  let? dll := be16_of lb in
+  if blen b <? dll + 4 then Err E.InvalidSCTE35Length else
+  let? rl := parse_desc_loop (S (length data)) sid dll 0 b [] [] in
+  let '(other, descs, _) := rl in Ok (other, descs).
+
 (* scte35.parseTable; sid = identity given to the new object *)
 Definition parse_table (sid : N) (data : bytes) : Res scte :=
   let pf := pointer_field data in
-  if len data <? w16 (pf + 4 + 15) then   (* uint16(pf)+PSIHeaderLen(=4)+15 *) Err E.InvalidSCTE35Length else
+  if len data <? w16 (pf + 4 + 15) then Err E.InvalidSCTE35Length else   (* uint16(pf)+PSIHeaderLen(=4)+15 *)
   let b := buf_new data in
   let (_, b) := next (w8 (pf + 1)) b in           (* uint8 addition *)
   let (hb, b) := next 3 b in
@@ -325,21 +344,10 @@ Definition parse_table (sid : N) (data : bytes) : Res scte :=
   let tier := t0 * 16 + N.shiftr (N.land t1 240) 4 in
   let scl := N.land t1 15 * 256 + t2 in
   let (ct, b) := read_byte0 b in
-  let? r :=
-    (if (ct =? TimeSignal) || (ct =? SpliceInsert) then
-       let? rc := (if ct =? TimeSignal then parse_time_signal b
-                   else let? ri := parse_insert b in let (i, b') := ri in Ok (CInsert i, b')) in
-       let (cmd, b') := rc in
-       Ok (Pts.add (cmd_pts cmd) adj, cmd, b')
-     else if ct =? SpliceNull then Ok (0, CNull, b)
-     else Err E.SCTE35UnsupportedSpliceCommand) in
+  let? r := parse_command ct adj b in
   let '(pts, cmd, b) := r in
-  if blen b <? 6 then Err E.InvalidSCTE35Length else
-  let (lb, b) := next 2 b in
-  let? dll := be16_of lb in
-  if blen b <? dll + 4 then Err E.InvalidSCTE35Length else
-  let? rl := parse_desc_loop (S (length data)) sid dll 0 b [] [] in
-  let '(other, descs, _) := rl in
+  let? od := parse_descriptors sid data b in
+  let (other, descs) := od in
   let? dat := slice_from data (w8 (pf + 1)) in
   Ok (mkscte sid tid ssi pi slen pv false encalg pts cw tier scl ct cmd descs 0 dat other).
 
